@@ -354,8 +354,8 @@ func vKeepaliveGen(r *vRand, tier string, idx int) ([]int64, [][]int64) {
 			// dormancy, a byte arrives while dormant, then a stream: one ping, closed Timeout after the wake-up
 			return []int64{0, 10000, 5000, 0}, [][]int64{{1, 12}, {2, 80}, {3, 100}, {1, 4}, {1, 0}, {1, 4}, {1, 1}, {1, 10}}
 		case 10:
-			// a byte just before the wake-up: the wake-up ping closes a peer heard 1.001 s ago (Timeout < Time)
-			return []int64{0, 2000, 1000, 0}, [][]int64{{1, 1}, {2, 2}, {3, 0}, {1, 1}}
+			// a byte just before the wake-up: no ping before t0+Time, the peer heard 1 ms ago is not closed at wake-up+Timeout
+			return []int64{0, 2000, 1000, 0}, [][]int64{{1, 1}, {2, 2}, {3, 0}, {1, 1}, {1, 1}, {1, 1}}
 		case 8:
 			// dormancy without any byte: ping on wake-up, closed Timeout later
 			return []int64{0, 10000, 5000, 0}, [][]int64{{1, 12}, {3, 100}, {1, 4}, {1, 0}, {1, 4}}
